@@ -50,6 +50,8 @@ func rulesC01(c *Ctx) {
 	ruleC01Literal(c)
 	ruleC01Coerce(c)
 	ruleFreshRowCache(c, "C01.ROWCACHE")
+	ruleEvalPure(c, "C01.PURE", "ast", "boltz", "objectz")
+	ruleMapElementPath(c, "C01.MAPPATH")
 }
 
 // ruleC01Coerce: a number compared as a string has ONE textual form, whether it comes from a stored field,
@@ -1018,7 +1020,10 @@ func ruleC01Ops(c *Ctx) {
 		}
 		return ".f?"
 	}
-	for _, w := range []struct{ in, out string }{{"IContains", "Contains"}, {"NotIContains", "NotContains"}} {
+	for _, w := range []struct {
+		in, out string
+		upper   bool
+	}{{"IContains", "Contains", true}, {"NotIContains", "NotContains", true}, {"Contains", "Contains", false}, {"NotContains", "NotContains", false}} {
 		oracle := func(v ssa.Value) (AV, bool) {
 			switch x := v.(type) {
 			case *ssa.UnOp:
@@ -1080,15 +1085,21 @@ func ruleC01Ops(c *Ctx) {
 		default:
 			f := fieldsOf(res[0])
 			l, r, o := f[fieldIdx("left")], f[fieldIdx("right")], f[fieldIdx("op")]
-			if l.Sym != "upper:left" || r.Sym != "upper:right" {
+			if w.upper && (l.Sym != "upper:left" || r.Sym != "upper:right") {
 				ok, why = false, fmt.Sprintf("the operands of the typed node are (%s, %s) instead of the upper-cased left and right operands: icontains does not fold both operands to the same case", l.Sym, r.Sym)
+			} else if !w.upper && (l.Sym != "operand:left" || r.Sym != "operand:right") {
+				ok, why = false, fmt.Sprintf("the operands of the typed node are (%s, %s) instead of the left and right operands as written: the case-sensitive %s compares something other than the operands (for instance their upper-cased forms, which makes it case-insensitive)", l.Sym, r.Sym, strings.ToLower(w.in))
 			} else if o.Kind != "const" {
 				ok, why = false, "the operator of the typed node is not decided"
 			} else if g, _ := constant.Int64Val(o.C); g != ops[w.out] {
 				ok, why = false, fmt.Sprintf("the operator of the typed node is %d instead of BinaryOp%s (%d): the case-insensitive operators are not mapped to their case-sensitive counterparts", g, w.out, ops[w.out])
 			}
 		}
-		c.Check(ok, "C01.OPS", construct, p.Pos(tt.Pos()), w.in+" over strings becomes "+w.out+" over both operands upper-cased", why)
+		okText := w.in + " over strings becomes " + w.out + " over both operands upper-cased"
+		if !w.upper {
+			okText = w.in + " over strings stays " + w.out + " over the operands as written"
+		}
+		c.Check(ok, "C01.OPS", construct, p.Pos(tt.Pos()), okText, why)
 	}
 	c.Floor("C01.OPS", 12)
 }
